@@ -77,6 +77,11 @@ class Monitor:
         # a new node asks for an id (the placeholder registered for it is not a presentation of anybody)
         if cfg.get("idreq"):
             self._alpha.append(["line", [255, 255, 3, 0, 3, ""]])
+        if cfg.get("badgw"):
+            # the gateway node presents itself with a version string that cannot be used (the presentation registers the
+            # node, the version report inside it is refused)
+            self._alpha.append(["line", [0, 255, 0, 0, 18, ""]])
+            self._alpha.append(["line", [0, 255, 0, 0, 18, "2.x"]])
         # the gateway reports other 2.x releases: the rules in force change, the episodes do not
         for r in cfg.get("switch", []):
             self._alpha.append(["line", [0, 255, 3, 0, 2, r]])
@@ -133,6 +138,7 @@ class Monitor:
             s.transport.fail_writes = 1
         if kind == "line-slow":
             s.transport.slow_writes = 1
+        node_before = s.gateway.nodes.get(n)
         out = s.line(R.enc(*f).rstrip("\n"))
         s.transport.slow_writes = 0
         s.transport.fail_writes = 0
@@ -173,6 +179,12 @@ class Monitor:
                         bad("failed-request-not-reported", f"request write failed but step gave {out.describe()}")
             if out.kind != "raise" or not isinstance(out.exc, AIOMySensorsError):
                 bad("missing-not-rejected", f"message referring to a missing node/child gave {out.describe()}")
+        if f[2] == 0 and f[1] == 255 and out.kind == "raise" and s.gateway.nodes.get(n) is not None and s.gateway.nodes.get(n) is not node_before:
+            # the registry took this presentation (the node was created or re-created) although the line ended in an error
+            # (an unusable version string in the gateway node's presentation): the node has presented itself
+            self.outstanding.discard(n)
+            self.sleeping.discard(n)
+            self.model.nodes[n] = self.model.fresh(f[4], f[5])
         if f[2] == 3 and f[4] == R.I_ID_REQUEST:
             for w in out.writes:
                 g = w.rstrip("\n").split(";", 5)
@@ -309,12 +321,14 @@ def run(ctx: core.Ctx) -> core.Report:
         cfgs.append({"version": "2.2", "nodes": [1], "app": True})
         cfgs.append({"version": "2.0", "nodes": [1], "switch": ["2.1.1", "2.2.0", "2.0.0"]})
         cfgs.append({"version": "2.1", "nodes": [1], "idreq": True})
+        cfgs.append({"version": "2.0", "nodes": [0], "badgw": True})
     else:
         cfgs = [{"version": v, "nodes": [1, 2, 3] if v in ("1.5", "2.0", "2.2") else [1, 2]} for v in R.VERSIONS]
         cfgs += [{"version": v, "nodes": [1, 2], "persistence": True} for v in ("1.5", "2.0", "2.2")]
         cfgs += [{"version": v, "nodes": [1, 2], "app": True} for v in ("2.0", "2.2")]
         cfgs += [{"version": v, "nodes": [1, 2], "switch": ["2.1.1", "2.2.0", "2.0.0", "2.0.1"]} for v in ("2.0", "2.1")]
         cfgs += [{"version": v, "nodes": [1, 2], "idreq": True} for v in ("1.5", "2.0", "2.2")]
+        cfgs += [{"version": v, "nodes": [0, 1], "badgw": True} for v in ("2.1", "2.2")]
     res = bfs.search(ctx, MOD, cfgs, max_depth=60)
     from .. import explore
 
